@@ -98,6 +98,7 @@ class G:
             "start_with": lambda p: ["start_with", ["l"] + [str(v) for v in g.items(2)], p],
             "tap": lambda p: ["tap", g.newtag(), p],
             "map_to_any": lambda p: ["map_to_any", p],
+            "timestamp": lambda p: ["timestamp", p],
             "demat_mat": lambda p: ["dematerialize", ["materialize", p]],
             "demat_map": lambda p: ["dematerialize", ["map", "toMat", p]],
         }
@@ -112,6 +113,7 @@ class G:
             "buffer_with_count": lambda p: ["buffer_with_count", str(g.r.choice([1, 2, 3])), p],
             "materialize": lambda p: ["materialize", p],
             "is_even": lambda p: ["map", "isEven", p],
+            "time_interval": lambda p: ["time_interval", p],
             "window_with_count": lambda p: ["window_with_count", str(g.r.choice([1, 2, 3])), p],
             "group_by": lambda p: ["group_by", g.r.choice([["mod", "2"], ["mod", "3"]]), p],
         }
